@@ -90,6 +90,7 @@ CombosFailed(v, o) ==
 Failed(o) ==
   IF o.obs.panic THEN {"panic"} ELSE IF o.obs.timeout THEN {"timeout"} ELSE
   LET v == o.vec IN
+  IF Has(v, "wide") THEN (IF o.obs.top.err = "" THEN CombosFailed(v, o.obs) ELSE {"C08-error"}) ELSE      \* (12,000 columns: the four input combinations only)
     (IF ListOK(v.ref, v.targets, o.obs.tlist) /\ ListOK(v.ref, v.queries, o.obs.qlist) THEN {} ELSE {"C10-list-row"})
     \cup (IF CliBadAt(o.obs, "list_") THEN {"C10-cli-wiring"} ELSE {})
     \cup (IF HasOpts(v) /\ CliBad(o.obs.top) THEN {"C08-cli-wiring"} ELSE {})
